@@ -282,6 +282,39 @@ Proof.
 Qed.
 End L2.
 
+(* ---------- the flag becomes visible only after the notification ---------- *)
+Lemma cnt_pos_exists {A} (p : A -> bool) : forall l, 0 < cnt p l -> Exists (fun x => p x = true) l.
+Proof.
+  induction l as [|x l IH]; intros H; [rewrite cnt_nil in H; lia|].
+  rewrite cnt_cons in H. destruct (p x) eqn:E; [left; exact E|]. right. apply IH. unfold b2z in H. lia.
+Qed.
+
+(* whenever the underlying flag reads open, every collector -- the closer first -- has been told
+   Opened for this opening (the last notification is Opened), or a CLOSING thread has already
+   announced Closed and is about to clear the flag *)
+Theorem l2_flag_after_notify : forall fo fc pool0 s,
+  all_fresh_t pool0 -> reach tstep (tinit fo fc, pool0) s ->
+  t_open (fst s) = true ->
+  last_dir (t_log (fst s)) = Some DOpen \/ Exists (fun t => th_pc t = TSec DClose SStore) (snd s).
+Proof.
+  intros fo fc pool0 s Hp Hr Ho. destruct (inv_reachable fo fc pool0 s Hp Hr) as (Hc & _ & Hfree & Hsec).
+  assert (Hcur : cur (t_log (fst s)) = true -> last_dir (t_log (fst s)) = Some DOpen).
+  { unfold cur. destruct (last_dir (t_log (fst s))) as [[|]|]; intros; try discriminate; reflexivity. }
+  destruct (t_held (fst s)) eqn:Hh.
+  - assert (Hex : Exists (fun t => in_section t = true) (snd s)) by (apply cnt_pos_exists; lia).
+    apply Exists_exists in Hex. destruct Hex as (t & Hin & Hs).
+    rewrite Forall_forall in Hsec. specialize (Hsec t Hin). unfold sec_ok in Hsec. unfold in_section in Hs.
+    destruct (th_pc t) as [k|d p|r|r] eqn:Epc; try discriminate.
+    destruct p; try discriminate.
+    + left. apply Hcur. congruence.
+    + left. apply Hcur. destruct Hsec; congruence.
+    + destruct d.
+      * destruct Hsec as [_ H2]. cbn in H2. congruence.
+      * right. apply Exists_exists. exists t. split; [exact Hin | exact Epc].
+    + left. apply Hcur. congruence.
+  - left. apply Hcur. rewrite <- (Hfree eq_refl). exact Ho.
+Qed.
+
 (* ---------- a single reconfiguration takes effect ---------- *)
 Lemma prog_no_store kind k loc v nx :
   (match kind with KSet _ _ => false | _ => true end) = true ->
